@@ -153,9 +153,20 @@ class Ctx:
             if rc != 0:
                 raise Broken("translator-build", out[-2000:])
             rc, out = sh([gen_bin, "-repo", REPO, "-out", os.path.join(COQ, "Gen")], timeout=120)
+        if rc == 3:
+            # some translator pieces cannot translate the current sources: their outputs were removed, so exactly
+            # the theorems that depend on them stop compiling; everything else is up to date
+            try:
+                self.gen_failures = json.load(open(os.path.join(COQ, "Gen", "failures.json")))
+            except Exception:
+                self.gen_failures = {"?": out[-500:]}
+            self.info.append("translator pieces that cannot translate the current sources: " +
+                             "; ".join("%s (%s)" % kv for kv in sorted(self.gen_failures.items())))
+            return True
         if rc != 0:
             self.broken.append(("translator: tools/gen cannot translate the current sources", out[-2000:]))
             return False
+        self.gen_failures = {}
         return True
 
     # ---------------------------------------------------------------- Coq
@@ -188,7 +199,12 @@ class Ctx:
         self.checker_cmds.append("bin/coqbuild " + " ".join(targets))
         rc, out = sh(cmd, timeout=3600, env=dict(os.environ, VERIF_COQ_DIR=COQ))
         if rc != 0:
-            self.broken.append(("%s: coq build of %s failed" % (what, " ".join(targets)), out[-3000:]))
+            gf = getattr(self, "gen_failures", {})
+            m = re.search(r"SX\.Gen\.(\w+)|Gen/(\w+)\.v", out)
+            extra = ""
+            if gf and m:
+                extra = " (translator: %s)" % "; ".join("%s: %s" % kv for kv in sorted(gf.items()))[:600]
+            self.broken.append(("%s: coq build of %s failed%s" % (what, " ".join(targets), extra), out[-3000:]))
             return False, out
         return True, out
 
@@ -253,7 +269,7 @@ class Ctx:
         """Write work/<pid>/<name>.v with `body`, compile it, return the joined output text."""
         path = os.path.join(self.work, name + ".v")
         with open(path, "w") as f:
-            f.write(body)
+            f.write("Set Printing Depth 1000000.\nSet Printing Width 240.\n" + body)
         rc, out = sh(["coqc", "-Q", COQ, "SX", "-w", "-all", "-noglob", path], timeout=timeout, cwd=self.work)
         for ext in (".vo", ".vok", ".vos"):
             try:
